@@ -102,11 +102,11 @@ def plan(ctx):
                 + fam.select(p2, 25, ctx.seed + 2, name) + special
             seeds = [ctx.seed, ctx.seed + 1]
         else:
-            sel = pool + fam.select(p1, 150, ctx.seed, name) + fam.select(p2, 400, ctx.seed, name) \
-                + fam.random_args(ctx.seed, 80) + special
+            sel = pool + fam.select(p1, 100, ctx.seed, name) + fam.select(p2, 200, ctx.seed, name) \
+                + fam.random_args(ctx.seed, 40) + special
             from families import boundary
             sel += boundary.select(name, ctx.seed, want=3, tries=60)
-            seeds = [ctx.seed + i for i in range(6)]
+            seeds = [ctx.seed + i for i in range(4)]
         sel = list(dict.fromkeys(sel))
         n = 3 if ctx.quick else 8
         for k in range(n):
@@ -150,7 +150,7 @@ def run(ctx):
         bounds=dict(branch_worlds='<= 4', branch_constants='<= 4',
                     arguments='35 family + 50 propositional + 14 fixed specials per logic' if ctx.quick
                     else 'all family + 550 propositional + 80 random per logic',
-                    seeds=2 if ctx.quick else 6, options='default, group optimisation off, rank optimisation off',
+                    seeds=2 if ctx.quick else 4, options='default, group optimisation off, rank optimisation off',
                     max_steps=600),
         solver=stats.asdict(),
         functions_executed=['Tableau.build/finish/_gen_models', 'BaseModel.read_branch/_read_node/finish',
